@@ -309,7 +309,8 @@ def iterators(prog, res):
     an = L.Analysis(prog)
     problems = []
     rets = an.run(f, L.State())
-    B0, E0 = L.lvar("ptr:it->remaining.beg"), L.lvar("ptr:it->remaining.end")
+    itn = f.params[0]["n"]
+    B0, E0 = L.lvar("ptr:%s->remaining.beg" % itn), L.lvar("ptr:%s->remaining.end" % itn)
     nn = 0
     for rv, st in rets:
         if rv is not None and not (L.is_const(rv) and rv.get(L.ONE, 0) == 0):
@@ -318,7 +319,7 @@ def iterators(prog, res):
                 problems.append("the frame returned is not the one at the old cursor")
             if not st.entails_le(L.ladd(L.lsub(B0, E0), L.lconst(1))):
                 problems.append("a frame can be returned although the cursor has reached the end of the packet (reads past the mapped region)")
-            nb = st.cells.get("it->remaining.beg")
+            nb = st.cells.get("%s->remaining.beg" % itn)
             sz = [v for k, v in st.cells.items() if k.endswith("->bytes_of_frame")]
             if nb is None or len(sz) != 1 or not st.entails_eq(L.lsub(nb, L.ladd(B0, sz[0]))):
                 problems.append("the cursor is not advanced by the returned frame's bytes_of_frame")
